@@ -85,7 +85,7 @@ class Bounds:
         self.upper = upper
 
     def __hash__(self) -> int:
-        return hash(self.lower)+hash(self.upper)
+        return hash((self.lower, self.upper))
 
     def __iter__(self):
         return iter([self.lower, self.upper])
@@ -178,7 +178,7 @@ class variable(Proposition):
             self.bounds = Bounds(*bounds)
 
     def __hash__(self):
-        return hash(self.id)+hash(self.bounds)
+        return hash((self.id, self.bounds))
 
     def __lt__(self, other):
         return self.id < other.id
